@@ -16,6 +16,9 @@ class UInt(int):
     __hash__ = None
 
 
+UInt.__name__ = "UInt[8]"
+
+
 # classes: 1 object, 2 Collection, 3 Sequence, 4 Mapping, 5 int, 6 bool, 7 str, 8 tuple, 9 list, 10 dict, 11 float, 12 NoneType,
 # 13 Mode (an IntEnum), 14 UInt (an unhashable int)
 PARENTS = [[], [1], [2], [2], [1], [5], [3], [3], [3], [4], [1], [1], [5], [5]]
@@ -111,6 +114,10 @@ def types(big=False):
     T.append({"k": "union", "args": [lt, l2], "py": ["or", lt["py"], l2["py"]]})
     T.append({"k": "union", "args": [l2, lt], "py": ["or", l2["py"], lt["py"]]})
     T.append({"k": "prod", "args": [l0, sw], "bound": cls("tuple"), "py": ["prod", [l0, sw]]})
+    # a member class whose __name__ is not an identifier ('UInt[8]', the way generic factories name specialisations)
+    U = cls("UInt")
+    T.append({"k": "prod", "args": [U, I], "bound": cls("tuple"), "py": ["prod", [U, I]]})
+    T.append({"k": "union", "args": [U, l0], "py": ["or", U, l0["py"]]})
     return T
 
 
@@ -166,7 +173,8 @@ def real(py):
     if k == "and":
         return real(py[1]) & real(py[2])
     if k == "or":
-        return real(py[1]) | real(py[2])
+        r = lambda x: real_term(x) if isinstance(x, dict) else real(x)   # noqa: E731
+        return r(py[1]) | r(py[2])
     raise ValueError(py)
 
 
